@@ -548,21 +548,23 @@ def run_check(prop, tier, cfg):
         # remaining failing obligations are listed without a replay of their own (each replay is a Kani
         # concrete-playback run plus two native test builds: minutes, and a broken tree fails dozens of obligations)
         max_replays = int(os.environ.get("VERIF_MAX_REPLAYS", "4") or 4)
-        order = sorted(groups.items(), key=lambda kv: 0 if native_replayable(kv[1][0]["harness"]) else 1)
+        dur_ms = {r["harness_id"]: (r.get("duration_ms") or 0) for r in results}
+        # groups with a natively replayable, fast member first
+        order = sorted(groups.items(), key=lambda kv: min((0 if native_replayable(v["harness"]) else 1, dur_ms.get(v["harness"], 0)) for v in kv[1]))
         also_failing = []
         for n_done, (key, members) in enumerate(order):
             if (n_done >= max_replays and confirmed) or n_done >= 3 * max_replays:
                 also_failing += members
                 continue
+            # representative of the group: a natively replayable member if there is one, and the fastest harness
+            # among those (the concrete-playback run repeats the harness with the full trace)
+            members.sort(key=lambda v: (0 if native_replayable(v["harness"]) else 1, dur_ms.get(v["harness"], 0)))
             rep_v = members[0]
-            for m_ in members:  # prefer a natively replayable member of the group as its representative
-                if native_replayable(m_["harness"]):
-                    rep_v = m_
-                    break
+            budget = int(max(900, 4 * dur_ms.get(rep_v["harness"], 0) / 1000 + 300))
             if not native_replayable(rep_v["harness"]):
                 rep, path, note = replay(ov, prop, rep_v, extra, native=False)
             else:
-                rep, path, note = replay(ov, prop, rep_v, extra)
+                rep, path, note = replay(ov, prop, rep_v, extra, timeout=budget)
             for v in members:
                 v["replay"] = path
                 v["replay_note"] = note + ("" if v is rep_v else f" (representative: {rep_v['harness']})")
